@@ -7,6 +7,7 @@ import (
 	"runtime"
 	"sort"
 	"strconv"
+	"strings"
 	"sync"
 	"time"
 
@@ -51,6 +52,10 @@ var (
 func installYield() {
 	yieldOnce.Do(func() {
 		manager.SetVerifYield(func(ctx context.Context, point int, rt xdsresource.ResourceType, name string) {
+			if point >= 5 {
+				recvYield(point) // receiver goroutine between the sections of a response handler (sysrun.go)
+				return
+			}
 			t, ok := ctx.Value(ctxKey{}).(*cthread)
 			if !ok || t == nil {
 				return
@@ -72,13 +77,17 @@ func installYield() {
 }
 
 type concRun struct {
+	rt     string // "cds" (default), "lds", ...
 	w      *world
 	s      *csched
 	trace  []interface{}
 	cached map[string]bool
 }
 
-func newConcRun(names []string) (*concRun, error) {
+func newConcRun(names []string, rt string) (*concRun, error) {
+	if rt == "" {
+		rt = "cds"
+	}
 	installYield()
 	w, err := newWorld(worldOpts{ndsNotRequired: true, fetchTimeout: time.Hour})
 	if err != nil {
@@ -90,10 +99,10 @@ func newConcRun(names []string) (*concRun, error) {
 	curSchedMu.Unlock()
 	// the names are subscribed already (an earlier lookup asked for them): updates for them are accepted
 	for _, n := range names {
-		w.m.VerifWatch(xdsresource.ClusterType, n, false)
+		w.m.VerifWatch(rtOf(rt), n, false)
 	}
 	w.settle()
-	return &concRun{w: w, s: s, cached: map[string]bool{}}, nil
+	return &concRun{rt: rt, w: w, s: s, cached: map[string]bool{}}, nil
 }
 
 // close ends the run: every lookup still parked or waiting is cancelled and released, so that no goroutine
@@ -207,12 +216,12 @@ func (r *concRun) start(id int, name string) {
 		r.s.mu.Lock()
 		t.gid = g
 		r.s.mu.Unlock()
-		p, msg := recoverTo(func() { res, err = r.w.m.Get(ctx, xdsresource.ClusterType, name) })
+		p, msg := recoverTo(func() { res, err = r.w.m.Get(ctx, rtOf(r.rt), name) })
 		out := ""
 		if p {
 			out = "panic:" + msg
 		} else {
-			out = canonGet(xdsresource.ClusterType, res, err)
+			out = canonGet(rtOf(r.rt), res, err)
 		}
 		r.s.mu.Lock()
 		t.done, t.result, t.point, t.inSel = true, out, 0, false
@@ -281,11 +290,11 @@ func (r *concRun) deliver(items [][2]string, version int) {
 	ij := make([]interface{}, 0)
 	// an update is *accepted* for the names that are subscribed when it arrives (C01); only those are reported
 	interest := map[string]bool{}
-	for _, n := range r.w.m.VerifInterest()[xdsresource.ClusterType] {
+	for _, n := range r.w.m.VerifInterest()[rtOf(r.rt)] {
 		interest[n] = true
 	}
 	for _, it := range items {
-		anys = append(anys, anyStamped("cds", it[0], it[1]))
+		anys = append(anys, anyStamped(r.rt, it[0], it[1]))
 		if interest[it[0]] {
 			ij = append(ij, []interface{}{it[0], it[1]})
 			r.cached[it[0]] = true
@@ -303,7 +312,7 @@ func (r *concRun) deliver(items [][2]string, version int) {
 		}
 	}
 	before := r.selecting()
-	r.w.push(mkResp(xdsresource.ClusterTypeURL, fmt.Sprintf("v%d", version), fmt.Sprintf("n%d", version), anys))
+	r.w.push(mkResp(urlOf(r.rt), fmt.Sprintf("v%d", version), fmt.Sprintf("n%d", version), anys))
 	// threads in the select whose name was delivered should come out at yield point 3
 	names := map[string]bool{}
 	for _, it := range items {
@@ -340,7 +349,7 @@ func (r *concRun) cancelT(id int) {
 
 func (r *concRun) evict(name string) {
 	delete(r.cached, name)
-	r.w.m.VerifEvict(xdsresource.ClusterType, name)
+	r.w.m.VerifEvict(rtOf(r.rt), name)
 	r.w.settle()
 	r.trace = append(r.trace, obj{"s": "evict", "n": name})
 }
@@ -388,6 +397,7 @@ func (r *concRun) finish() {
 // a schedule is a list of abstract actions: "T<i>" advance thread i (start it or release it), "D<k>" deliver
 // update k, "C<i>" fire thread i's deadline, "E<name>" evict.
 type concScenario struct {
+	rt      string        // resource type of the lookups ("" = cds)
 	names   []string      // thread i looks up names[i]
 	updates [][][2]string // cluster sets to deliver, in order
 	cancels []int         // threads whose deadline may fire
@@ -403,7 +413,7 @@ func runSchedule(c *ctx, sc concScenario, actions []string, emit bool) (avail []
 			names = append(names, n)
 		}
 	}
-	r, err := newConcRun(names)
+	r, err := newConcRun(names, sc.rt)
 	if err != nil {
 		fmt.Println("conc:", err)
 		return nil, false
@@ -467,7 +477,7 @@ func runSchedule(c *ctx, sc concScenario, actions []string, emit bool) (avail []
 	}
 	if emit {
 		r.finish()
-		sj := obj{"names": sc.names}
+		sj := obj{"names": sc.names, "rt": r.rt}
 		c.emit(obj{"op": "sched", "scenario": sj, "actions": actions, "trace": r.trace})
 	}
 	return avail, false
@@ -511,6 +521,141 @@ func randomSchedule(c *ctx, sc concScenario) {
 	runSchedule(c, sc, prefix, true)
 }
 
+// gBlockedOnMutex: the goroutine waits for a sync.Mutex / RWMutex (read from the scheduler, see gstate).
+func gBlockedOnMutex(gid int64) bool {
+	st, _ := gstate(gid)
+	return strings.Contains(st, "Mutex") || st == "semacquire"
+}
+
+// deliverDuringWatch: an update arrives while a lookup that missed is inside its registration section, stalled in
+// Watch (the script holds the client's lock through a verif hook). Get's registration is one critical section of m.mu:
+// the update has to wait for it, finds the notifier and wakes the lookup. If the section were torn (m.mu released around
+// Watch) the update would slip in before the notifier exists and the lookup would wait for its deadline.
+func deliverDuringWatch(c *ctx, name string) {
+	r, err := newConcRun(nil, "cds")
+	if err != nil {
+		fmt.Println("conc:", err)
+		return
+	}
+	defer r.close()
+	r.start(0, name) // parks at point 1 (missed)
+	r.w.m.VerifLockClient()
+	// release the lookup without waiting for it to park: it stalls in Watch
+	r.s.mu.Lock()
+	t := r.s.threads[0]
+	t.point = 0
+	gate := t.gate
+	t.gate = make(chan struct{})
+	gid := t.gid
+	r.s.mu.Unlock()
+	close(gate)
+	r.w.waitFor(func() bool { return gBlockedOnMutex(gid) }, 5*time.Second)
+	// the update, straight into the manager (the client's own handlers need the lock the script is holding)
+	res, _ := xdsresource.UnmarshalCDS([]*anypb.Any{anyStamped("cds", name, name+"#1")})
+	up := map[string]xdsresource.Resource{}
+	for k, v := range res {
+		up[k] = v
+	}
+	dDone := make(chan struct{})
+	var dGid int64
+	var dMu sync.Mutex
+	go func() {
+		dMu.Lock()
+		dGid = goid()
+		dMu.Unlock()
+		r.w.m.UpdateResource(xdsresource.ClusterType, up, "v1")
+		close(dDone)
+	}()
+	deliveredFirst := false
+	r.w.waitFor(func() bool {
+		select {
+		case <-dDone:
+			deliveredFirst = true
+			return true
+		default:
+		}
+		dMu.Lock()
+		g := dGid
+		dMu.Unlock()
+		return g > 0 && gBlockedOnMutex(g)
+	}, 5*time.Second)
+	deliverEv := obj{"s": "deliver", "full": true, "items": []interface{}{[]interface{}{name, name + "#1"}}, "woke": []interface{}{}}
+	if deliveredFirst {
+		r.trace = append(r.trace, deliverEv)
+	}
+	r.w.m.VerifUnlockClient()
+	r.waitParked(0, 10*time.Second)
+	p, _, done, dres := r.snapshot(0)
+	e := obj{"s": "go", "i": 0, "from": 1}
+	if done {
+		e["done"] = dres
+	} else {
+		e["at"] = p
+	}
+	r.trace = append(r.trace, e)
+	if !deliveredFirst {
+		<-dDone
+		r.trace = append(r.trace, deliverEv)
+	}
+	r.w.settle()
+	r.finish()
+	c.count("deliver-during-watch", 1)
+	c.emit(obj{"op": "sched", "scenario": obj{"names": []string{name}, "rt": "cds", "kind": "deliver-during-watch"}, "actions": []string{"T0", "lock", "T0", "D", "unlock"}, "trace": r.trace})
+}
+
+// deadlineCases: wall-clock side of C05 (not expressible in the model): a lookup of a resource that never arrives
+// returns an error no later than the earlier of the fetch timeout and the caller's deadline / cancellation, plus slack.
+func deadlineCases(c *ctx) {
+	for _, tc := range []struct {
+		fetchMs, callerMs int
+		cancel            bool
+	}{{60, 0, false}, {60, 4000, false}, {4000, 60, false}, {4000, 60, true}, {80, 80, false}} {
+		w, err := newWorld(worldOpts{ndsNotRequired: true, fetchTimeout: time.Duration(tc.fetchMs) * time.Millisecond})
+		if err != nil {
+			fmt.Println("deadline: world:", err)
+			return
+		}
+		cx := context.Background()
+		var cancelFn context.CancelFunc = func() {}
+		if tc.callerMs > 0 {
+			if tc.cancel {
+				cx, cancelFn = context.WithCancel(cx)
+				time.AfterFunc(time.Duration(tc.callerMs)*time.Millisecond, cancelFn)
+			} else {
+				cx, cancelFn = context.WithTimeout(cx, time.Duration(tc.callerMs)*time.Millisecond)
+			}
+		}
+		type out struct {
+			res string
+			el  time.Duration
+		}
+		ch := make(chan out, 1)
+		go func() {
+			t0 := time.Now()
+			var res interface{}
+			var gerr error
+			p, msg := recoverTo(func() { res, gerr = w.m.Get(cx, xdsresource.ClusterType, "never-delivered") })
+			el := time.Since(t0)
+			if p {
+				ch <- out{"panic:" + msg, el}
+			} else {
+				ch <- out{canonGet(xdsresource.ClusterType, res, gerr), el}
+			}
+		}()
+		var o out
+		select {
+		case o = <-ch:
+		case <-time.After(8 * time.Second):
+			o = out{"hang", 8 * time.Second}
+		}
+		cancelFn()
+		w.close()
+		c.count("deadline.cases", 1)
+		c.emit(obj{"op": "deadline", "fetchMs": tc.fetchMs, "callerMs": tc.callerMs, "cancel": tc.cancel,
+			"obs": obj{"result": o.res, "elapsedMs": o.el.Milliseconds()}})
+	}
+}
+
 func init() {
 	run := func(c *ctx) {
 		scen := []concScenario{
@@ -523,9 +668,11 @@ func init() {
 			// delivery then removal (eviction) racing with the wake-up
 			{names: []string{"c1"}, updates: [][][2]string{{{"c1", "c1#1"}}}, evicts: []string{"c1"}},
 		}
-		limits := []int{40, 90, 60, 40}
+		// a listener lookup (name-table-free configuration); the first response carries only another listener
+		scen = append(scen, concScenario{rt: "lds", names: []string{"lx"}, updates: [][][2]string{{{"other", "o#1"}}, {{"lx", "lx#2"}}}, cancels: []int{0}})
+		limits := []int{40, 90, 60, 40, 40}
 		if c.thorough() {
-			limits = []int{100000, 100000, 100000, 100000}
+			limits = []int{100000, 100000, 100000, 100000, 100000}
 			scen = append(scen,
 				concScenario{names: []string{"c1", "c1", "c1"}, updates: [][][2]string{{{"c1", "c1#1"}}}, cancels: []int{0, 1}},
 				concScenario{names: []string{"c1", "c1"}, updates: [][][2]string{{{"c1", "c1#1"}}, {{"c1", "c1#2"}}}, cancels: []int{0}, evicts: []string{"c1"}})
@@ -555,8 +702,18 @@ func init() {
 			c.count(fmt.Sprintf("scenario%d.schedules", i), n)
 		}
 	}
-	_ = runtime.NumGoroutine
-	props["C05"] = func(c *ctx) { run(c); c.count("goroutines.at.end", runtime.NumGoroutine()) }
-	props["C06"] = run
-	props["C07"] = run
+	runAll := func(c *ctx) {
+		deliverDuringWatch(c, "w1")
+		run(c)
+		c.count("goroutines.at.end", runtime.NumGoroutine())
+	}
+	props["C05"] = func(c *ctx) { runAll(c); deadlineCases(c) }
+	props["C06"] = runAll
+	props["C07"] = func(c *ctx) {
+		for _, rt := range []string{"cds", "eds", "rds", "lds"} {
+			handlerOrder(c, rt, "h-"+rt)
+		}
+		runAll(c)
+		runSys(c)
+	}
 }
